@@ -90,9 +90,11 @@ class World:
             self._wait_turn(r)
             res = slot["result"]
             out = res[r] if isinstance(res, dict) else res
+            logged = out if kind != "Bcast" else slot["bufs"][r].tolist()
             self.seq[r] += 1
             self.log.append({"epoch": e, "rank": r, "seq": self.seq[r], "kind": kind, "root": root,
-                             "op": op, "contrib": slot["contrib"][r], "result": _copy.deepcopy(out)})
+                             "op": op, "contrib": slot["contrib"][r], "result": _copy.deepcopy(logged),
+                             "order": list(slot["order"])})
             return _copy.deepcopy(out)
 
     def _complete(self, slot):
